@@ -25,11 +25,14 @@ def validate(run, sc, trace_records, label="real"):
         # the emitted path whose prefix produced this record: re-running it re-creates the record
         prefix = [tuple(x) for x in r.get("prefix", [])]
         path = next((p[:len(prefix)] for _, p in g["paths"] if [(s["act"], s["arg"]) for s in p[:len(prefix)]] == prefix), [])
+        if len(run.violations) >= 300 and key not in run.known:
+            continue
         run.violation(key, f"no action of Rebase.tla allows the recorded real step {json.dumps(r)[:400]}",
                       {"kind": "record", "record": r, "obj": g["obj"], "start": g["start"], "a": g["a"], "b": g["b"],
                        "ctor": g["ctor"], "path": path})
     run.traces += len(recs)
     run.coverage["real_steps_validated_by_trace_spec"] = len(recs)
+    run.coverage["real_steps_rejected_by_trace_spec"] = len(stuck)
     return stuck
 
 
